@@ -334,6 +334,15 @@ func init() {
 		},
 		vrt + "Note": func(m *Machine, a []Val) Val { return nil },
 		vrt + "CheckAlloc": func(m *Machine, a []Val) Val { return nil },
+		vrt + "LiveBytes": func(m *Machine, a []Val) Val { return m.liveBytes(nil) },
+		vrt + "LiveBytesExcluding": func(m *Machine, a []Val) Val {
+			var ex []Val
+			for _, c := range m.sliceElems(a[0]) {
+				ex = append(ex, c.V)
+			}
+			return m.liveBytes(ex)
+		},
+		vrt + "KeepSymbolicBounds": func(m *Machine, a []Val) Val { m.keepSymBounds = a[0].(Bool).C; return nil },
 
 		// ---- fmt / errors ----
 		"fmt.Errorf":  func(m *Machine, a []Val) Val { return m.newErr("fmt.Errorf") },
